@@ -45,6 +45,9 @@ EXPLANATION = (
     "condition leaves _control_type = f(condition). R-C05-6 (T3, 3 fixtures evaluated twice; AST def-use fallback): two evaluations of a "
     "TankLevelCondition in one step report the same positive partial step. R-C05-7 (T2, symbolic path enumeration to sympy with a case split on "
     "_is_isolated): the junction pressure stored for the conditions equals the one save_results reports. "
+    "R-C05-8 (T3, bounded to one fixture model: the model of sa/props/c13_fixture.py plus two simple controls with explicit priorities, built by the "
+    "repository's constructors; _get_valve_controls / _get_pump_controls interpreted): every control or rule that sets a valve's setting or a pump's speed "
+    "gets exactly one companion status control with the same condition object, class, priority and control type. "
     "Decides the loop discipline and plumbing on these fixtures, not the invariant over actual trajectories.")
 RULE_TEXT = "one instance = one path obligation or one plumbing fact (mapping entry, truth-table row, fixture outcome)"
 ASSUMPTIONS = ["equal-priority conflicts between triggered controls are outside the statement's guarantee", "effective status = f(user, internal) is decided under C02 (R-C02-7)",
@@ -762,6 +765,78 @@ def _nm(v):
 
 
 # ====================================================================================================================
+def companion_rules(repo, chk):
+    """R-C05-8 (T3, bounded to one fixture model).  A control `IF cond THEN valve SETTING x` (or pump SPEED) only takes effect if the link is also put
+    into the status in which the value applies; the simulator adds a companion status control for that.  The priority exception of the property ("unless
+    a triggered control of equal or higher priority conflicts") is decided among the controls THE SIMULATOR RUNS, so the companion must compete with
+    exactly the weight of its original: same condition object (it fires at the same instants), same class (simple control / rule), same priority and the
+    same control type (it is checked in the same phase)."""
+    from ..concrete import Instance, ProgramError, Unsupported
+    from .c13 import model_world, build_fixture_model
+    vfn = repo.func(CORE, "WNTRSimulator._get_valve_controls")
+    pfn = repo.func(CORE, "WNTRSimulator._get_pump_controls")
+    chk.fn(vfn, pfn)
+    world = model_world(repo)
+    I = world.interp
+    call = lambda o, m, *a, **k: I.call(I.getattr_(o, m), list(a), k)
+    try:
+        wn = build_fixture_model(repo, world)
+        Cc = {n: world.function(CTRL, n) for n in ("SimTimeCondition", "ValueCondition", "ControlAction", "Control", "Rule")}
+        v1, v4, pu1, pu2, t1 = (call(wn, "get_link", "V1"), call(wn, "get_link", "V4"), call(wn, "get_link", "PU1"), call(wn, "get_link", "PU2"), call(wn, "get_node", "T1"))
+        extra = [("x_set_low", Cc["Control"](Cc["ValueCondition"](t1, "level", ">=", 3.0), Cc["ControlAction"](v1, "setting", 25.0), priority=1)),
+                 ("x_set_high", Cc["Control"](Cc["ValueCondition"](t1, "level", "<", 1.0), Cc["ControlAction"](v4, "setting", 2.0), priority=5)),
+                 ("x_speed", Cc["Control"](Cc["SimTimeCondition"](wn, "=", 7200), Cc["ControlAction"](pu1, "base_speed", 0.5), priority=4)),
+                 ("x_speed_rule", Cc["Rule"](Cc["ValueCondition"](t1, "level", ">", 4.0), [Cc["ControlAction"](pu2, "base_speed", 0.7)], [], priority=2, name="x_speed_rule"))]
+        for nm, c in extra:
+            call(wn, "add_control", nm, c)
+        sim = Instance(world.function(CORE, "WNTRSimulator"))
+        I.raw_setattr(sim, "_wn", wn)
+
+        class _SourceChecker(object):        # the feasibility controls of PRV / PSV / FCV only need a callable to be built
+            _sa_mock = True
+
+            def should_valve_be_opened(self, valve):
+                return False
+        I.raw_setattr(sim, "_valve_source_checker", _SourceChecker())
+        made = {"setting": list(I.getattr_(sim, "_get_valve_controls")()), "base_speed": list(I.getattr_(sim, "_get_pump_controls")())}
+        LS = world.overrides["wntr.network.base.LinkStatus"]
+        n = 0
+        for cname, control in list(call(wn, "controls")):
+            for action in call(control, "actions"):
+                tgt, attr = call(action, "target")
+                if attr not in made:
+                    continue
+                n += 1
+                what = "%s %r: %s %s" % (control._cls.name, cname, I.getattr_(tgt, "name"), attr)
+                comps = []
+                for k in made[attr]:
+                    if I.getattr_(k, "condition") is not I.getattr_(control, "condition"):
+                        continue
+                    acts = list(call(k, "actions"))
+                    if len(acts) == 1 and call(acts[0], "target")[0] is tgt and call(acts[0], "target")[1] == "status":
+                        comps.append((k, acts[0]))
+                fn_ = vfn if attr == "setting" else pfn
+                chk.expect(len(comps) >= 1, "R-C05-8", "%s has a companion status control on the same condition" % what, loc(fn_),
+                           "without it a closed valve / pump stays closed although its setting / speed was changed", found="%d companion(s)" % len(comps))
+                if not comps:
+                    continue
+                k, act = comps[0]
+                want_status = LS.Active if attr == "setting" else LS.Open
+                facts = [("class", k._cls.name, control._cls.name), ("priority", int(I.getattr_(k, "priority")), int(I.getattr_(control, "priority"))),
+                         ("control type", str(I.getattr_(k, "epanet_control_type")), str(I.getattr_(control, "epanet_control_type"))),
+                         ("status", I.getattr_(act, "_value"), want_status)]
+                bad = ["%s %s (original: %s)" % (f, g, w) for f, g, w in facts if g != w]
+                chk.expect(not bad, "R-C05-8", "the companion of %s competes with the weight of its original (class, priority, control type) and sets %s" % (what, want_status.name),
+                           loc(fn_), "conflicts between triggered controls are settled by priority among the controls the simulator runs: a companion with another priority "
+                           "overrides (or yields to) controls its original would not", expected="same as the original", found=bad or None)
+        if n < 8:
+            raise ExtractError("R-C05-8: only %d setting / speed actions found in the fixture model" % n)
+    except ProgramError as e:
+        chk.bad("R-C05-8", "the simulator builds its valve / pump controls on the fixture model", loc(vfn), "the repository's own code (interpreted) raised", found="%s (line %s)" % (e, e.lineno))
+    except Unsupported as e:
+        raise ExtractError("R-C05-8: %s" % e)
+
+
 def run(repo, chk):
     rs = repo.func(CORE, "WNTRSimulator.run_sim")
     chk.fn(rs)
@@ -1095,6 +1170,10 @@ def run(repo, chk):
     chk.expect(table == wantt, "R-C05-5", "tank-level conditions are pre-and-post-solve, time conditions pre-solve, everything else post-solve", loc(CTRL, ci_),
                expected=wantt, found=table)
     chk.floor("R-C05-5", 2)
+
+    # ---------------------------------------------------------------- R-C05-8 companion status controls of setting / speed controls
+    companion_rules(repo, chk)
+    chk.floor("R-C05-8", 8)
 
     # ---------------------------------------------------------------- R-C05-6 the partial step of a tank-level condition does not depend on who asked first
     tle = repo.func(CTRL, "TankLevelCondition.evaluate")
@@ -1488,6 +1567,12 @@ def _conditional_control_facts(repo, ccf):
 
 
 WITNESSES = [
+    dict(name="valve-companion-loses-the-priority", file=CORE, old="                    new_control = type(control)(condition, new_action, priority=control.priority)\n                    valve_controls.append(new_control)",
+         new="                    new_control = type(control)(condition, new_action)\n                    valve_controls.append(new_control)", rule="R-C05-8"),
+    dict(name="pump-companion-is-always-a-simple-control", file=CORE, old="                    new_control = type(control)(condition, new_action, priority=control.priority)\n                    pump_controls.append(new_control)",
+         new="                    new_control = Control(condition, new_action, priority=control.priority)\n                    pump_controls.append(new_control)", rule="R-C05-8"),
+    dict(name="valve-companion-priority-through-a-temporary-preserving", file=CORE, old="                    new_control = type(control)(condition, new_action, priority=control.priority)\n                    valve_controls.append(new_control)",
+         new="                    prio = control.priority\n                    new_control = type(control)(condition, new_action, priority=prio)\n                    valve_controls.append(new_control)", silent=True),
     # (the isolated head is the elevation since the datum fix, so `node._head - node.elevation` is 0 again: that edit is now the silent variant below)
     dict(name="isolated-junction-pressure-is-its-head", file="wntr/sim/hydraulics.py", old="            node._pressure = 0\n", new="            node._pressure = node._head\n", rule="R-C05-7"),
     dict(name="isolated-junction-pressure-not-reported-as-zero", file="wntr/sim/hydraulics.py", old="            node_res['pressure'][name].append(0.0)\n        else:", new="            node_res['pressure'][name].append(node.head)\n        else:", rule="R-C05-7"),
